@@ -201,10 +201,10 @@ Definition loaded (g0 : cnet) (outs : list name) (p : list (name * option value)
 Lemma loaded_eq g0 outs p : loaded g0 outs p = load_pool p (base g0 outs).
 Proof. reflexivity. Qed.
 
-(** every node of the net handed to the PoolLoader has an operation or an output (what
+(** no node of the net handed to the PoolLoader carries both an operation and an output (what
     Executor.get_execution_order demands of every node it visits) *)
 Definition wf_base (g0 : cnet) : Prop :=
-  forall k c, lookup k (c_nodes (base g0 [])) = Some c -> c_op c = None -> c_out c <> None.
+  forall k c o, lookup k (c_nodes (base g0 [])) = Some c -> c_op c = Some o -> c_out c = None.
 
 Lemma in_needed_iff g x : In x (needed_of g) <-> In x (c_outputs g) /\ has_op g x = true.
 Proof.
@@ -218,83 +218,49 @@ Proof.
     + destruct H as [->|H]; [now left | right; now apply IH].
 Qed.
 
-(** a stored node that has an operation before the PoolLoader runs is needed exactly when the pool
-    lacks it for the batch *)
-Lemma loaded_key_needed g0 outs q k c o :
-  NoDup (map fst q) -> In k (map fst q) ->
-  lookup k (c_nodes (base g0 outs)) = Some c -> c_op c = Some o ->
-  In k (needed_of (load_pool q (base g0 outs))) <-> lookup k q = Some None.
-Proof.
-  intros Hnd Hin Ec Eo. rewrite in_needed_iff. unfold has_op. rewrite (load_pool_lookup q _ k Hnd), Ec.
-  destruct (lookup k q) as [[v|]|] eqn:Eq.
-  - simpl. split; [intros [_ H]; discriminate | discriminate].
-  - rewrite Eo. split; [reflexivity|]. intros _. split; [|reflexivity].
-    apply load_pool_missing_is_output; [now apply lookup_In_pair|]. unfold has. now rewrite Ec.
-  - exfalso. apply lookup_None_iff in Eq. contradiction.
-Qed.
-
-(** ---- two loaded nets of one handler are coherent ---- *)
+(** ---- any two loaded nets of one handler are coherent: also when the pool's stores differ ---- *)
 Theorem loaded_coherent g0 outs outs' p p' :
-  wf_base g0 -> map fst p = map fst p' -> NoDup (map fst p) ->
+  wf_base g0 -> NoDup (map fst p) -> NoDup (map fst p') ->
   coherent (loaded g0 outs p) (loaded g0 outs' p').
 Proof.
-  intros Hwf Hk Hnd. rewrite !loaded_eq.
+  intros Hwf Hnd Hnd'. rewrite !loaded_eq.
   destruct (base_shape g0 outs outs') as [Bn [Be _]].
   destruct (base_shape g0 outs []) as [Bn0 _].
-  assert (Hnd' : NoDup (map fst p')) by (rewrite <- Hk; exact Hnd).
+  assert (Hnames : map fst (c_nodes (load_pool p (base g0 outs))) = map fst (c_nodes (load_pool p' (base g0 outs')))).
+  { rewrite !load_pool_names. now rewrite Bn. }
   split; [|split].
   - rewrite !load_pool_edges. exact Be.
-  - rewrite !load_pool_names. now rewrite Bn.
-  - intros Hneeded.
-    assert (Hkey : forall k c o, lookup k (c_nodes (base g0 outs)) = Some c -> c_op c = Some o ->
-                     In k (map fst p) -> (lookup k p = Some None <-> lookup k p' = Some None)).
-    { intros k c o Ec Eo Hin.
-      rewrite <- (loaded_key_needed g0 outs p k c o Hnd Hin Ec Eo).
-      rewrite Bn in Ec. rewrite Hk in Hin.
-      rewrite <- (loaded_key_needed g0 outs' p' k c o Hnd' Hin Ec Eo).
-      now rewrite Hneeded. }
-    assert (Hnone : forall n, lookup n p = None <-> lookup n p' = None).
-    { intros n. rewrite !lookup_None_iff. now rewrite Hk. }
-    assert (Hboth : forall n,
-              has_out (load_pool p (base g0 outs)) n = has_out (load_pool p' (base g0 outs')) n /\
-              has_op (load_pool p (base g0 outs)) n = has_op (load_pool p' (base g0 outs')) n).
-    { intros n. unfold has_out, has_op.
-      rewrite (load_pool_lookup p _ n Hnd), (load_pool_lookup p' _ n Hnd'), <- Bn.
-      destruct (lookup n (c_nodes (base g0 outs))) as [c|] eqn:Ec.
-      2:{ destruct (lookup n p) as [[v|]|]; destruct (lookup n p') as [[v'|]|]; auto. }
-      specialize (Hkey n c). specialize (Hnone n).
-      assert (Hout : c_op c = None -> c_out c <> None).
-      { apply (Hwf n). now rewrite <- Bn0. }
-      destruct (lookup n p) as [[v|]|] eqn:E1; destruct (lookup n p') as [[v'|]|] eqn:E2; simpl; auto;
-        try (exfalso; destruct Hnone as [H1 H2]; (specialize (H1 eq_refl) || specialize (H2 eq_refl)); discriminate).
-      - (* held by p, lacked by p' *)
-        destruct (c_op c) as [o|] eqn:Eo.
-        + exfalso. assert (Hin : In n (map fst p)) by (eapply lookup_key_In; exact E1).
-          destruct (Hkey o Ec eq_refl Hin) as [_ H2]. specialize (H2 eq_refl). discriminate.
-        + specialize (Hout eq_refl). destruct (c_out c); [auto | contradiction].
-      - (* lacked by p, held by p' *)
-        destruct (c_op c) as [o|] eqn:Eo.
-        + exfalso. assert (Hin : In n (map fst p)) by (eapply lookup_key_In; exact E1).
-          destruct (Hkey o Ec eq_refl Hin) as [H1 _]. specialize (H1 eq_refl). discriminate.
-        + specialize (Hout eq_refl). destruct (c_out c); [auto | contradiction]. }
-    split; intros n; apply Hboth.
+  - exact Hnames.
+  - intros Hkey n.
+    assert (Hloaded : loaded_names (load_pool p (base g0 outs)) = loaded_names (load_pool p' (base g0 outs')))
+      by (unfold key_of in Hkey; inversion Hkey; auto).
+    pose proof (loaded_names_has_out _ _ Hnames Hloaded n) as Hout.
+    unfold has_out, has_op in *.
+    rewrite (load_pool_lookup p _ n Hnd), (load_pool_lookup p' _ n Hnd'), <- Bn in *.
+    destruct (lookup n (c_nodes (base g0 outs))) as [c|] eqn:Ec.
+    2:{ destruct (lookup n p) as [[v|]|]; destruct (lookup n p') as [[v'|]|]; auto. }
+    destruct (c_op c) as [o|] eqn:Eo.
+    + assert (Hnone : c_out c = None) by (apply (Hwf n c o); [now rewrite <- Bn0 | exact Eo]).
+      destruct (lookup n p) as [[v|]|]; destruct (lookup n p') as [[v'|]|]; simpl in *;
+        rewrite ?Eo, ?Hnone in *; try reflexivity; try discriminate.
+    + destruct (lookup n p) as [[v|]|]; destruct (lookup n p') as [[v'|]|]; simpl; rewrite ?Eo; reflexivity.
 Qed.
 
 (** ---- an inference run over a pool ---- *)
-Definition CacheAll (g0 : cnet) (K : list name) (c : ecache) : Prop :=
-  forall outs p, map fst p = K -> CacheConsistent (loaded g0 outs p) c.
+Definition CacheAll (g0 : cnet) (c : ecache) : Prop :=
+  forall outs p, NoDup (map fst p) -> CacheConsistent (loaded g0 outs p) c.
 
-Lemma CacheAll_empty g0 K : CacheAll g0 K empty_cache.
+Lemma CacheAll_empty g0 : CacheAll g0 empty_cache.
 Proof. intros outs p _. apply CacheConsistent_empty. Qed.
 
-Lemma CacheAll_step g0 K c outs p out log c' :
-  wf_base g0 -> NoDup K -> map fst p = K -> CacheAll g0 K c ->
-  execute (loaded g0 outs p) c = Ok (out, log, c') -> CacheAll g0 K c'.
+Lemma CacheAll_step g0 c outs p out log c' :
+  wf_base g0 -> NoDup (map fst p) -> CacheAll g0 c ->
+  execute (loaded g0 outs p) c = Ok (out, log, c') -> CacheAll g0 c'.
 Proof.
-  intros Hwf Hnd Hp Hall Hex outs1 p1 Hp1.
+  intros Hwf Hp Hall Hex outs1 p1 Hp1.
   destruct (execute_cache_after _ _ _ _ _ Hex) as [o Ho].
   eapply consistent_after; [| apply (Hall outs p Hp) | apply (Hall outs1 p1 Hp1) | exact Ho].
-  apply loaded_coherent; [exact Hwf | congruence | now rewrite Hp].
+  now apply loaded_coherent.
 Qed.
 
 Lemma get_batch_keys pl i : map fst (get_batch pl i) = map fst (stores pl).
@@ -339,39 +305,78 @@ Proof.
   now rewrite Hu.
 Qed.
 
+(** the invariant a run maintains: the handler's net is the compiled net up to its (growing)
+    output set, the pool's stores have distinct names, the cache is consistent with every net the
+    handler can load *)
+Definition RunInv (g0 : cnet) (s : run_state) : Prop :=
+  (exists outs, rs_net s = with_outputs g0 outs) /\ NoDup (map fst (stores (rs_pool s))) /\ CacheAll g0 (rs_cache s).
+
+Lemma step_batch_inv g0 s i s' out log :
+  wf_base g0 -> RunInv g0 s -> step_batch s i = Ok (s', out, log) -> RunInv g0 s'.
+Proof.
+  intros Hwf [[outs Hnet] [Hnd Hall]] H. unfold step_batch in H. rewrite Hnet in H.
+  change (load (get_batch (rs_pool s) i) (with_outputs g0 outs)) with (loaded g0 outs (get_batch (rs_pool s) i)) in H.
+  destruct (execute (loaded g0 outs (get_batch (rs_pool s) i)) (rs_cache s)) as [[[o l] c1]|] eqn:E; simpl in H; [|discriminate].
+  inversion H; subst. clear H. split; [|split]; cbn [rs_net rs_pool rs_cache].
+  - eexists. reflexivity.
+  - now rewrite add_batch_keys.
+  - eapply CacheAll_step; [exact Hwf | | exact Hall | exact E]. now rewrite get_batch_keys.
+Qed.
+
+Lemma run_batches_inv g0 : forall idxs s s' obs,
+  wf_base g0 -> RunInv g0 s -> run_batches s idxs = Ok (s', obs) -> RunInv g0 s'.
+Proof.
+  induction idxs as [|i r IH]; intros s s' obs Hwf Hinv H; simpl in H; [inversion H; now subst|].
+  destruct (step_batch s i) as [[[s1 o] l]|] eqn:E; simpl in H; [|discriminate].
+  destruct (run_batches s1 r) as [[s2 rest]|] eqn:E2; simpl in H; [|discriminate].
+  inversion H; subst. eapply IH; [exact Hwf | eapply step_batch_inv; eauto | exact E2].
+Qed.
+
 (** Along a whole inference run over a pool (any batch indices, the pool filling up and the shared
     output set growing on the way), every batch returns the outputs and the call log that a fresh
     executor cache gives, and the pool ends up the same. *)
-Theorem pool_run_cache_transparent g0 : forall idxs s outs,
-  wf_base g0 -> NoDup (map fst (stores (rs_pool s))) ->
-  rs_net s = with_outputs g0 outs ->
-  CacheAll g0 (map fst (stores (rs_pool s))) (rs_cache s) ->
+Theorem pool_run_cache_transparent g0 : forall idxs s,
+  wf_base g0 -> RunInv g0 s ->
   visible (run_batches s idxs) = visible (run_batches_fresh s idxs).
 Proof.
-  induction idxs as [|i r IH]; intros s outs Hwf Hnd Hnet Hall; [reflexivity|].
-  cbn [run_batches run_batches_fresh]. unfold step_batch. cbn [uncache rs_net rs_pool rs_cache].
-  rewrite Hnet.
-  change (load (get_batch (rs_pool s) i) (with_outputs g0 outs)) with (loaded g0 outs (get_batch (rs_pool s) i)).
-  set (lg := loaded g0 outs (get_batch (rs_pool s) i)).
-  assert (Hkeys : map fst (get_batch (rs_pool s) i) = map fst (stores (rs_pool s))) by apply get_batch_keys.
-  pose proof (execute_cache_transparent lg (rs_cache s) (Hall outs _ Hkeys)) as Ht.
-  destruct (execute lg (rs_cache s)) as [[[out log] c1]|e1] eqn:E1;
-    destruct (execute lg empty_cache) as [[[out2 log2] c2]|e2] eqn:E2; simpl in Ht; try discriminate.
-  - inversion Ht; subst out2 log2. simpl.
-    set (s1 := {| rs_net := _; rs_pool := _; rs_cache := c1 |}).
+  induction idxs as [|i r IH]; intros s Hwf Hinv; [reflexivity|].
+  pose proof Hinv as [[outs Hnet] [Hnd Hall]].
+  cbn [run_batches run_batches_fresh].
+  destruct (step_batch s i) as [[[s1 o1] l1]|e1] eqn:E1.
+  - pose proof (step_batch_inv g0 s i s1 o1 l1 Hwf Hinv E1) as Hinv1.
+    unfold step_batch in *. cbn [uncache rs_net rs_pool rs_cache]. rewrite Hnet in *.
+    change (load (get_batch (rs_pool s) i) (with_outputs g0 outs)) with (loaded g0 outs (get_batch (rs_pool s) i)) in *.
+    set (lg := loaded g0 outs (get_batch (rs_pool s) i)) in *.
+    assert (Hk : NoDup (map fst (get_batch (rs_pool s) i))) by now rewrite get_batch_keys.
+    pose proof (execute_cache_transparent lg (rs_cache s) (Hall outs _ Hk)) as Ht.
+    destruct (execute lg (rs_cache s)) as [[[out log] c1]|] eqn:Ee; simpl in E1; [|discriminate].
+    destruct (execute lg empty_cache) as [[[out2 log2] c2]|e2]; simpl in Ht; [|discriminate].
+    inversion Ht; subst out2 log2. inversion E1; subst s1 o1 l1. clear E1. simpl.
+    set (s1 := {| rs_net := _; rs_pool := _; rs_cache := c1 |}) in *.
     set (s1' := {| rs_net := _; rs_pool := _; rs_cache := c2 |}).
     assert (Hv : visible (run_batches s1 r) = visible (run_batches_fresh s1' r)).
-    { rewrite (run_batches_fresh_ext r s1' s1 eq_refl eq_refl).
-      apply (IH s1 (c_outputs lg)); subst s1; cbn [rs_net rs_pool rs_cache].
-      - exact Hwf.
-      - now rewrite add_batch_keys.
-      - reflexivity.
-      - rewrite add_batch_keys. eapply CacheAll_step; [exact Hwf | exact Hnd | exact Hkeys | exact Hall | exact E1]. }
+    { rewrite (run_batches_fresh_ext r s1' s1 eq_refl eq_refl). now apply IH. }
     destruct (run_batches s1 r) as [[s2 rest]|e]; destruct (run_batches_fresh s1' r) as [[s2' rest']|e'];
       simpl in Hv; try discriminate; simpl.
     + inversion Hv; subst. reflexivity.
     + inversion Hv; subst. reflexivity.
-  - simpl. inversion Ht; subst. reflexivity.
+  - unfold step_batch in *. cbn [uncache rs_net rs_pool rs_cache]. rewrite Hnet in *.
+    change (load (get_batch (rs_pool s) i) (with_outputs g0 outs)) with (loaded g0 outs (get_batch (rs_pool s) i)) in *.
+    set (lg := loaded g0 outs (get_batch (rs_pool s) i)) in *.
+    assert (Hk : NoDup (map fst (get_batch (rs_pool s) i))) by now rewrite get_batch_keys.
+    pose proof (execute_cache_transparent lg (rs_cache s) (Hall outs _ Hk)) as Ht.
+    destruct (execute lg (rs_cache s)) as [[[out log] c1]|] eqn:Ee; simpl in E1; [discriminate|].
+    destruct (execute lg empty_cache) as [[[out2 log2] c2]|e2]; simpl in Ht; [discriminate|].
+    simpl. inversion Ht; subst. inversion E1; subst. reflexivity.
+Qed.
+
+Lemma RunInv_start g pl : NoDup (map fst (stores pl)) ->
+  RunInv g {| rs_net := g; rs_pool := pl; rs_cache := empty_cache |}.
+Proof.
+  intros Hnd. split; [|split]; cbn [rs_net rs_pool rs_cache].
+  - exists (c_outputs g). destruct g; reflexivity.
+  - exact Hnd.
+  - apply CacheAll_empty.
 Qed.
 
 (** in particular from the state a new BatchHandler starts in *)
@@ -379,45 +384,81 @@ Corollary pool_run_from_start g pl idxs :
   wf_base g -> NoDup (map fst (stores pl)) ->
   visible (run_batches {| rs_net := g; rs_pool := pl; rs_cache := empty_cache |} idxs)
   = visible (run_batches_fresh {| rs_net := g; rs_pool := pl; rs_cache := empty_cache |} idxs).
+Proof. intros Hwf Hnd. apply (pool_run_cache_transparent g idxs _ Hwf). now apply RunInv_start. Qed.
+
+(** ... and for a later run of the SAME handler (same ComputationContext, hence the same executor
+    cache) after the pool was changed in any way that keeps store names distinct - stores removed,
+    added, cleared, another pool altogether *)
+Corollary pool_rerun_after_pool_change g pl idxs1 s1 obs1 pl' idxs2 :
+  wf_base g -> NoDup (map fst (stores pl)) -> NoDup (map fst (stores pl')) ->
+  run_batches {| rs_net := g; rs_pool := pl; rs_cache := empty_cache |} idxs1 = Ok (s1, obs1) ->
+  visible (run_batches {| rs_net := rs_net s1; rs_pool := pl'; rs_cache := rs_cache s1 |} idxs2)
+  = visible (run_batches_fresh {| rs_net := rs_net s1; rs_pool := pl'; rs_cache := rs_cache s1 |} idxs2).
 Proof.
-  intros Hwf Hnd. apply (pool_run_cache_transparent g idxs _ (c_outputs g)); cbn [rs_net rs_pool rs_cache]; auto.
-  - destruct g; reflexivity.
-  - apply CacheAll_empty.
+  intros Hwf Hnd Hnd' H1.
+  destruct (run_batches_inv g idxs1 _ s1 obs1 Hwf (RunInv_start g pl Hnd) H1) as [Hnet [_ Hall]].
+  apply (pool_run_cache_transparent g idxs2 _ Hwf). split; [|split]; cbn [rs_net rs_pool rs_cache]; assumption.
 Qed.
 
-(** wf_base holds whenever every node of the compiled net has an operation or an output *)
-Lemma set_output_wf n v b g :
-  (forall k c, lookup k (c_nodes g) = Some c -> c_op c = None -> c_out c <> None) ->
-  forall k c, lookup k (c_nodes (set_output n v b g)) = Some c -> c_op c = None -> c_out c <> None.
+(** wf_base holds whenever no node of the compiled net has both an operation and an output and the
+    runtime nodes have no operation *)
+Definition excl (g : cnet) : Prop := forall k c o, lookup k (c_nodes g) = Some c -> c_op c = Some o -> c_out c = None.
+
+Lemma set_output_excl n v b g :
+  excl g -> (b = true \/ forall c, lookup n (c_nodes g) = Some c -> c_op c = None) -> excl (set_output n v b g).
 Proof.
-  intros H k c Hl Ho. unfold set_output in Hl. destruct (lookup n (c_nodes g)) as [c0|] eqn:E; [|eauto].
+  intros H Hb k c o Hl Ho. unfold set_output in Hl. destruct (lookup n (c_nodes g)) as [c0|] eqn:E; [|eauto].
   destruct (string_dec n k) as [->|Hne].
-  - rewrite lookup_add_node_same in Hl. inversion Hl; subst. simpl. discriminate.
+  - rewrite lookup_add_node_same in Hl. inversion Hl; subst. simpl in Ho. exfalso.
+    destruct Hb as [->|Hb]; [simpl in Ho; discriminate|]. rewrite (Hb c0 eq_refl) in Ho. destruct b; discriminate.
+  - rewrite lookup_add_node_other in Hl by exact Hne. eauto.
+Qed.
+
+Lemma set_output_noop n v g i :
+  (forall c, lookup i (c_nodes g) = Some c -> c_op c = None) ->
+  forall c, lookup i (c_nodes (set_output n v true g)) = Some c -> c_op c = None.
+Proof.
+  intros H c Hl. unfold set_output in Hl. destruct (lookup n (c_nodes g)) as [c0|] eqn:E; [|eauto].
+  destruct (string_dec n i) as [->|Hne].
+  - rewrite lookup_add_node_same in Hl. inversion Hl; subst. reflexivity.
   - rewrite lookup_add_node_other in Hl by exact Hne. eauto.
 Qed.
 
 Theorem wf_base_of_nodes g0 :
-  (forall k c, lookup k (c_nodes g0) = Some c -> c_op c = None -> c_out c <> None) -> wf_base g0.
+  excl g0 ->
+  (forall i c, In i ["_batch_size"; "_meta"; "_random_state"]%string -> lookup i (c_nodes g0) = Some c -> c_op c = None) ->
+  wf_base g0.
 Proof.
-  intros H. unfold wf_base, base, load_runtime.
-  repeat apply set_output_wf.
-  unfold load_observed. change (c_observed (with_outputs g0 [])) with (c_observed g0).
-  assert (G : forall l g, (forall k c, lookup k (c_nodes g) = Some c -> c_op c = None -> c_out c <> None) ->
-              forall k c, lookup k (c_nodes (fold_left (fun g1 (nv : name * value) => set_output (observed_name (fst nv)) (snd nv) true g1) l g)) = Some c ->
-                          c_op c = None -> c_out c <> None).
-  { induction l as [|nv r IHl]; intros g Hg; simpl; [exact Hg|]. apply IHl. now apply set_output_wf. }
-  apply G. exact H.
+  intros H Hi. unfold wf_base. fold (excl (base g0 [])). unfold base, load_observed.
+  change (c_observed (with_outputs g0 [])) with (c_observed g0).
+  assert (G : forall l g, excl g ->
+              (forall i c, In i ["_batch_size"; "_meta"; "_random_state"]%string -> lookup i (c_nodes g) = Some c -> c_op c = None) ->
+              let g' := fold_left (fun g1 (nv : name * value) => set_output (observed_name (fst nv)) (snd nv) true g1) l g in
+              excl g' /\ (forall i c, In i ["_batch_size"; "_meta"; "_random_state"]%string -> lookup i (c_nodes g') = Some c -> c_op c = None)).
+  { induction l as [|nv r IHl]; intros g Hg Hgi; simpl; [auto|]. apply IHl.
+    - apply set_output_excl; [exact Hg | now left].
+    - intros i c Hin. apply set_output_noop. intros c0. now apply Hgi. }
+  destruct (G (c_observed g0) (with_outputs g0 []) H Hi) as [He Hn]. cbv zeta in He, Hn.
+  set (g1 := fold_left _ (c_observed g0) (with_outputs g0 [])) in *.
+  unfold load_runtime.
+  assert (Hother : forall n v g i, n <> i -> (forall c, lookup i (c_nodes g) = Some c -> c_op c = None) ->
+                   forall c, lookup i (c_nodes (set_output n v false g)) = Some c -> c_op c = None).
+  { intros n v g i Hne Hg c Hl. rewrite set_output_other in Hl by exact Hne. eauto. }
+  apply set_output_excl; [apply set_output_excl; [apply set_output_excl; [exact He|] |] |]; right.
+  - intros c. apply Hn. simpl. tauto.
+  - apply Hother; [discriminate|]. intros c. apply Hn. simpl. tauto.
+  - apply Hother; [discriminate|]. apply Hother; [discriminate|]. intros c. apply Hn. simpl. tauto.
 Qed.
 
 (** a decidable form, for concrete nets *)
 Definition wf_base_b (g0 : cnet) : bool :=
   forallb (fun nc : name * cnode =>
-             match c_op (snd nc), c_out (snd nc) with None, None => false | _, _ => true end)
+             match c_op (snd nc), c_out (snd nc) with Some _, Some _ => false | _, _ => true end)
           (c_nodes (base g0 [])).
 
 Lemma wf_base_b_sound g0 : wf_base_b g0 = true -> wf_base g0.
 Proof.
-  unfold wf_base_b, wf_base. intros H k c Hl Ho. rewrite forallb_forall in H.
+  unfold wf_base_b, wf_base. intros H k c o Hl Ho. rewrite forallb_forall in H.
   specialize (H (k, c) (lookup_In_pair _ _ _ Hl)). simpl in H. rewrite Ho in H.
-  destruct (c_out c); [discriminate | discriminate].
+  destruct (c_out c); [discriminate | reflexivity].
 Qed.
